@@ -29,13 +29,14 @@ type verdict struct {
 }
 
 type observation struct {
-	q        *QSpec
-	qw       []byte
-	arr      arrival
-	recCalls int
-	recErr   error
-	recResp  *dns.Msg
-	tr       trace
+	q         *QSpec
+	qw        []byte
+	arr       arrival
+	recCalls  int
+	recErr    error
+	recResp   *dns.Msg
+	tr        trace
+	transport string
 }
 
 func expandName(msg []byte, off int) (raw []byte, next int, err error) {
@@ -151,17 +152,17 @@ func judge(o *observation) verdict {
 		}
 		return v
 	}
+	switch {
+	case o.recCalls == 0:
+		v.class = "unhandled"
+	case o.recErr != nil:
+		v.class = "servfail"
+	case o.recResp == nil:
+		v.class = "refused"
+	default:
+		v.class = "answer"
+	}
 	if len(o.arr.replies) == 0 {
-		switch {
-		case o.recCalls == 0:
-			v.class = "unhandled"
-		case o.recErr != nil:
-			v.class = "servfail"
-		case o.recResp == nil:
-			v.class = "refused"
-		default:
-			v.class = "answer"
-		}
 		addf("no-reply-valid-query", "well-formed query got no reply (%s; chain calls=%d, chain err=%v, chain response=%v, http status=%d)",
 			o.arr.note, o.recCalls, o.recErr, o.recResp != nil, o.arr.status)
 		return v
@@ -343,6 +344,8 @@ func feature(o *observation, v *verdict, f fail) string {
 	switch f.class {
 	case "reply-to-malformed":
 		return o.q.Malform
+	case "reply-framing", "reply-unparsable", "reply-buffer-released":
+		return o.transport
 	case "udp-oversize", "missing-TC":
 		switch {
 		case o.q.OPT == nil:
